@@ -1093,6 +1093,8 @@ impl<'a> JitMemory<'a> {
         let mut jit = JitCompiler::new();
         jit.jit_compile(&mut mem, prog, use_mbuff, update_data_ptr, helpers)?;
         jit.resolve_jumps(&mut mem)?;
+        #[cfg(rbpf_verif)]
+        crate::verif::record_jit_sizes(counter.offset, mem.offset, size);
 
         Ok(mem)
     }
